@@ -707,6 +707,13 @@ func (s *Lexer) getNextToken() (*Token, error) {
 		token.TokenType = NEQUAL
 	case SCOLON:
 		token.TokenType = ERROR
+	case SEXCL:
+		token.TokenType = ERROR
+	case SSTRING_D_ESCAPE:
+		fallthrough
+	case SSTRING_S_ESCAPE:
+		unendingString = true
+		token.TokenType = ERROR
 	case SBLOCKCOMMENT:
 		fallthrough
 	case SBLOCKCOMMENTSTARTEND:
@@ -715,6 +722,8 @@ func (s *Lexer) getNextToken() (*Token, error) {
 		unendingBlockComment = true
 		token.TokenType = ERROR
 	case SBLOCKCOMMENTFINAL:
+		fallthrough
+	case SCOMMENTSTART:
 		fallthrough
 	case SCOMMENT:
 		token.TokenType = COMMENT
